@@ -68,6 +68,11 @@ Big == <<
     MPt(<< <<0, 0>>, <<8, 8>>, <<3, 5>> >>),
     Ln(<<0, 7>>, <<7, 0>>),
     LS(StairLine(140)), Poly(StairRing(70), << Rev(Sq(1, 1, 1)) >>),
+    \* holed shells that do not fill their bounding box: an operand in the empty corner is outside the polygon, not in a hole
+    Poly(<< <<0, 0>>, <<9, 0>>, <<0, 9>>, <<0, 0>> >>, << Rev(Sq(1, 1, 2)) >>),                                            \* triangle
+    Poly(<< <<0, 0>>, <<9, 0>>, <<9, 3>>, <<3, 3>>, <<3, 9>>, <<0, 9>>, <<0, 0>> >>, << Rev(Sq(1, 1, 1)) >>),              \* L
+    Poly(<< <<0, 0>>, <<9, 0>>, <<9, 9>>, <<5, 2>>, <<0, 9>>, <<0, 0>> >>, << Rev(Sq(1, 1, 1)) >>),                        \* V
+    MPoly(<< [ext |-> << <<9, 9>>, <<0, 9>>, <<9, 0>>, <<9, 9>> >>, holes |-> << Rev(Sq(6, 6, 2)) >>], [ext |-> Sq(0, 0, 1), holes |-> <<>>] >>),
     MPt([i \in 1 .. 300 |-> <<(i * 7) % 13, (i * 11) % 17>>])
 >>
 \* small operands (moved around)
